@@ -3,6 +3,8 @@ package desync
 import (
 	"encoding/binary"
 	"io"
+	"io/ioutil"
+	"math"
 )
 
 type reader struct {
@@ -22,9 +24,24 @@ func (r reader) ReadUint64() (uint64, error) {
 // ReadN returns the next n bytes from the reader or an error if there are not
 // enough left
 func (r reader) ReadN(n uint64) ([]byte, error) {
-	b := make([]byte, n)
-	if _, err := io.ReadFull(r, b); err != nil {
+	if n > math.MaxInt64 {
+		return nil, InvalidFormat{"element size too large"}
+	}
+	if n <= 64*1024 {
+		b := make([]byte, n)
+		if _, err := io.ReadFull(r, b); err != nil {
+			return nil, err
+		}
+		return b, nil
+	}
+	// The size comes from the stream and can be far larger than what is left
+	// in it, let the buffer grow with the data that is actually there.
+	b, err := ioutil.ReadAll(io.LimitReader(r, int64(n)))
+	if err != nil {
 		return nil, err
+	}
+	if uint64(len(b)) < n {
+		return nil, io.ErrUnexpectedEOF
 	}
 	return b, nil
 }
